@@ -161,12 +161,17 @@ class Result:
         self.samples = []
         self.depth_completed = -1
         self.exhaustive = True
+        self.closed = False
 
 
 def explore(module, tier, seed, jobs=None, progress=True):
     from . import repo
 
     repo.setup()
+    import shutil
+    import tempfile
+    tmproot = tempfile.mkdtemp(prefix="verif-aldy-run-")
+    os.environ["VERIF_TMPROOT"] = tmproot
     check = _load(module, tier, seed)
     check.worker_setup()
     jobs = jobs or int(os.environ.get("VERIF_JOBS", "0")) or min(16, os.cpu_count() or 4)
@@ -209,6 +214,7 @@ def explore(module, tier, seed, jobs=None, progress=True):
     try:
         for depth in range(bound + 1):
             if not frontier:
+                res.closed = True     # no unexplored successor is left: the reachable space is complete below the bound
                 break
             if cap and res.states + len(frontier) > cap:
                 res.caps.append(f"state cap {cap} hit at depth {depth}: {len(frontier)} frontier states, "
@@ -265,6 +271,8 @@ def explore(module, tier, seed, jobs=None, progress=True):
         if pool:
             pool.terminate()
             pool.join()
+        shutil.rmtree(tmproot, ignore_errors=True)
+        os.environ.pop("VERIF_TMPROOT", None)
     res.nontrivial = len(nontriv_keys)
     res.wall = time.time() - t0
     res.check = check
